@@ -38,7 +38,7 @@ func runC03(c *core.Ctx) {
 	if workers > 14 {
 		workers = 14
 	}
-	c.RunSharded(cases, core.ShardOpts{Mode: "c03", Workers: workers, Timeout: 40 * time.Minute})
+	c.RunSharded(cases, core.ShardOpts{Mode: "c03", Workers: workers, Timeout: 20 * time.Minute, PerCaseTime: 10 * time.Minute})
 	c.Extra("exhaustive_per_scenario", !c.Quick())
 	c.Extra("reasons", c03Reasons)
 }
